@@ -6,18 +6,19 @@ def setup(register, COMMON_TB):
     register(
         "C03", coq="C03", coq_extra=["gen", "ngx"], pkg="./internal/mode/static/", test="TestVerifC03", gen=gen.gen_c03,
         extra=[dict(pkg="./internal/mode/static/", test="TestVerifTmpl"),
-               dict(pkg="./internal/mode/static/state/graph/", test="TestVerifC03Overlap")],
+               dict(pkg="./internal/mode/static/state/graph/", test="TestVerifC03Overlap"),
+               dict(pkg="./cmd/crossplane/", test="TestVerifLexCross", cwd="tests/framework/crossplane")],
         rule="generated admissible cluster states (as C02) with names rewritten into admissible extremes (dots, double hyphens, 50/200-character "
              "suffixes), OSS and Plus; the real handler/graph/configuration/generator output plus the static nginx.conf and include files is "
              "checked by ngx/Wf.v inside Coq; non-trivial = generated http.conf over 2.5 kB; distinct = distinct (state, plus)"
-             " Second part (templates, evaluated by ngx/TmplCheck.v): every execution of every text/template of the generator inside the real pipeline is recorded (wrapper installed around the package variables); the model of the template engine (ngx/Tmpl.v) is run on the parse tree regenerated from the source (gen/Templates.v) and on the data obtained by reflection, and must reproduce the text byte for byte; user-controlled string leaves are holes (marked: the marker-carrying benign value of every leaf; spaced: one leaf followed by a space and a word; states: generated states, every plain string leaf of unnamed type that no template constant equals); the symbolic tokenizer run over the chunks must not hit a lexical error, a hole that needs quoting outside quotes, a hole in directive-name position, or an unfinished token. Third part (TestVerifC03Overlap, evaluated by C03/OverlapCheck.v): the real BuildGraph on a Gateway with 2-4 listeners on up to three ports with exact/wildcard/no hostnames, 2-4 HTTPRoutes (parentRefs with and without sectionName, 0-2 hostnames, 1-2 paths) and 1-3 ObservabilityPolicies with 1-2 targets; observed: accepted hostnames per listener as the graph holds them, TargetConflict per policy; must agree with the model of the overlap check, and no accepted policy may share a location (hostname, listener port, path) with a Route it does not target",
+             " Second part (templates, evaluated by ngx/TmplCheck.v): every execution of every text/template of the generator inside the real pipeline is recorded (wrapper installed around the package variables); the model of the template engine (ngx/Tmpl.v) is run on the parse tree regenerated from the source (gen/Templates.v) and on the data obtained by reflection, and must reproduce the text byte for byte; user-controlled string leaves are holes (marked: the marker-carrying benign value of every leaf; spaced: one leaf followed by a space and a word; states: generated states, every plain string leaf of unnamed type that no template constant equals); the symbolic tokenizer run over the chunks must not hit a lexical error, a hole that needs quoting outside quotes, a hole in directive-name position, or an unfinished token. Third part (TestVerifC03Overlap, evaluated by C03/OverlapCheck.v): the real BuildGraph on a Gateway with 2-4 listeners on up to three ports with exact/wildcard/no hostnames, 2-4 HTTPRoutes (parentRefs with and without sectionName, 0-2 hostnames, 1-2 paths) and 1-3 ObservabilityPolicies with 1-2 targets; observed: accepted hostnames per listener as the graph holds them, TargetConflict per policy; must agree with the model of the overlap check, and no accepted policy may share a location (hostname, listener port, path) with a Route it does not target. Fourth part (TestVerifLexCross, evaluated by ngx/LexCross.v): every .conf file the first 40 (quick) / 400 (thorough) states generated is tokenized by nginx-go-crossplane v0.4.71 (an independent implementation of NGINX's tokenizer): same words, same quoting, same punctuation as ngx/Lexer.v (comments dropped, backslash-quote pairs normalised)",
         trusted_base=COMMON_TB + [
             "ngx/Tmpl.v: model of text/template execution for the subset the repository uses (truth, field access through pointers and string-keyed maps, "
             "printing of strings/integers/booleans, and/or/not/eq, variables with scopes, range/else, if/else); anything else is an error and shows as a mismatch",
             "translator harness/verifutil/tmpl.go (parse tree -> gen/Templates.v, panics on constructs outside the subset; the number of Parse calls in the "
             "sources below internal/ must equal the number of registered template variables) and reflection of template data into Tmpl.value",
             "add-only hook files zz_verif_tmpl.go (build tag verif, overlaid) exposing the addresses of the package-level template variables",
-            "ngx/Lexer.v, ngx/Wf.v: NGINX tokenizer and well-formedness rules written from the NGINX documentation (no NGINX binary in the sandbox)",
+            "ngx/Lexer.v, ngx/Wf.v: NGINX tokenizer and well-formedness rules written from the NGINX documentation (no NGINX binary in the sandbox); the tokenizer is compared with nginx-go-crossplane's lexer on the generated files on every run (fourth part)",
             "gen/Directives.v: directive contexts/arities regenerated from nginx-go-crossplane v0.4.71 (translator harness/pkg/tests/framework/crossplane/...); "
             "three NGINX Plus R33 mgmt directives added by hand in ngx/Wf.v",
             "admission (CRD schema/CEL) approximated by the generator",
